@@ -34,6 +34,10 @@ def gen_items(rng, n):
             # characters str.splitlines() treats as line boundaries but text files do not (and that are printed raw)
             keys = keys + ["Note"]
             attrs += ";Note=a%sb" % rng.choice(["\x85", "\u2028", "\u2029", "\u2028\x85"])
+        elif rng.random() < 0.3:
+            # a comma followed by a blank: dialect inference and the given-dialect path must split it alike
+            keys = keys + ["Note"]
+            attrs += ";Note=binds DNA, RNA%d" % i
         items.append({"line": "\t".join([chrom, "src", t, str(s), str(s + rng.randrange(0, 50)), ".", rng.choice("+-"), ".", attrs]),
                       "id": "i%d" % i, "flag": s % 2 == 1, "type": t, "chrom": chrom, "keys": keys})
     for it in items:
@@ -170,6 +174,19 @@ def run_impl(c):
             try:
                 r = insp.inspect(path, limit=c["limit"], verbose=False)
                 srt = lambda dct: sorted([k, v] for k, v in dct.items())
+                # the same answers whatever the input form (path, FeatureDB) and whichever subset of look_for is asked
+                import gffutils as _g
+                dbv = _g.create_db(path, ":memory:", id_spec="no_such_key_zz", merge_strategy="create_unique", verbose=False)
+                for data, kw in ((path, {}), (dbv, {})):
+                    for lf in (None, ["featuretype"], ["feature_count"], ["featuretype", "feature_count"], ["chrom", "attribute_keys"], []):
+                        kw2 = dict(kw)
+                        if lf is not None:
+                            kw2["look_for"] = lf
+                        r2 = insp.inspect(data, limit=c["limit"], verbose=False, **kw2)
+                        for key in (lf if lf is not None else ["featuretype", "chrom", "attribute_keys", "feature_count"]):
+                            if r2[key] != r[key]:
+                                raise ValueError("inspect(%s, look_for=%r)[%s] = %r, the default path form gives %r" % (
+                                    type(data).__name__, lf, key, r2[key], r[key]))
                 return {"count": ["ok", r["feature_count"]], "ftypes": ["ok", srt(r["featuretype"])], "chroms": ["ok", srt(r["chrom"])],
                         "keys": ["ok", srt(r["attribute_keys"])]}
             except Exception as ex:
@@ -190,7 +207,9 @@ def run_impl(c):
                     it = data
                 else:
                     it = iterators.DataIterator(data, checklines=c["checklines"], transform=tr, **kw)
-                o["seq"] = ["ok", [str(f) for f in it]]
+                feats_seen = list(it)
+                o["seq"] = ["ok", [str(f) for f in feats_seen]]
+                o["_attrs"] = [[[k, list(v)] for k, v in f.attributes._d.items()] for f in feats_seen]
             except Exception as ex:
                 o["seq"] = ["err", L.err_class(ex)]
             o["calls"] = tr.calls if tr else 0
@@ -206,6 +225,12 @@ def run_impl(c):
             except Exception as ex:
                 o["db"] = ["err", L.err_class(ex)]
             obs.append(o)
+        # "the same sequence of Features": not only the printed lines but the attribute mappings agree across input forms
+        base = next((o["_attrs"] for o in obs if "_attrs" in o), None)
+        for o in obs:
+            if "_attrs" in o and o["_attrs"] != base and o["seq"][0] == "ok":
+                o["seq"] = ["err", "Other"]
+            o.pop("_attrs", None)
         return {"obs": obs}
     finally:
         shutil.rmtree(d, ignore_errors=True)
